@@ -36,8 +36,9 @@ LEVEL_TEXT = {
             "in threading mode; the C07/C12 scenarios run through the multiprocessing code paths with tasks standing for "
             "forked processes (fork-view of the store, manager-list operations as yield points)."),
     "C07": ("exploration", "4/C07", "2-4 tasks x 1-2 object calls from several start states under the seeded baton-passing "
-            "scheduler (uniform random, PCT, bounded pre-emption, probe-biased; yield points = every file-system call, "
-            "lock/condition operation and flock); the recorded invoke/return history and the final alpha(directory) must be "
+            "scheduler (uniform random, PCT, bounded pre-emption, probe-biased, race-directed postponing; yield points = every "
+            "file-system call, lock/condition operation, locked-identifier list operation and flock; a share of the runs in "
+            "multiprocessing mode); the recorded invoke/return history and the final alpha(directory) must be "
             "explained by a sequential order of the reference model. Search, not enumeration: evidence over ~10^4 (quick) "
             "to ~10^5-10^6 (thorough) schedules."),
     "C08": ("exploration", "4/C08", "Every CONC run must end with all tasks finished (the scheduler owns every blocking "
@@ -46,20 +47,27 @@ LEVEL_TEXT = {
             "an injected I/O error at every fault site."),
     "C09": ("fault_enumeration", "4/C09", "Invariant monitor at every seam event of every (start state, call, knob set) of a "
             "fixed menu (complete for that menu), of random single calls, and of the multi-task runs: object files hash "
-            "to their name, metadata documents and pid references are complete supplied values, at every instant."),
+            "to their name, metadata documents and pid references are complete supplied values, at every instant; short writes on "
+            "raw descriptors and a system tmp dir on another file system (EXDEV) are part of the fault space; SEQ-I histories "
+            "continue after interruptions and read every document back."),
     "C10": ("fault_enumeration", "4/C10", "Process death before every mutating seam event of every (start state, call) of a "
             "fixed menu (complete for that menu) plus random states/calls/second crashes; recovery oracle on a new instance "
-            "opened on the directory as it was at that instant. Crash stub cross-checked against real fork + os._exit."),
+            "opened on the directory as it was at that instant; SEQ-I: histories that go on after process deaths (several "
+            "interruptions per history, states left behind by earlier ones); process death of all threads mid-call (crash-conc). "
+            "Crash stub cross-checked against real fork + os._exit."),
     "C12": ("exploration", "4/C12", "As C07 for store/retrieve/delete_metadata and delete_object on one pid and 1-2 formats, "
             "with reader tasks; one genuine defect (delete-all is not atomic across documents) is listed as a known finding "
             "and identified by a relaxed linearization, every other non-linearizable history is reported."),
     "C13": ("fault_enumeration", "4/C13", "One injected OSError per run at every fault site of every (start state, call) of a "
-            "fixed menu x {one-off, persistent} (complete for that menu; EIO in quick, EIO/ENOSPC/EACCES in thorough) plus "
-            "random states/calls/errnos."),
+            "fixed menu x {one-off, persistent, persistent-but-unlinkable} (complete for that menu; EIO in quick, EIO/ENOSPC/EACCES "
+            "in thorough) plus random states/calls/errnos, both synchronisation modes; SEQ-I histories that continue after "
+            "failed calls; multi-task runs with one injected error under the bystander oracle (calls and pids the error did "
+            "not touch must be explained by a sequential order), fault sites placed on paths several tasks touch."),
     "C14": ("exploration", "4/C14", "Histories with reopen(cfg') operations over the configuration space, refused opens "
             "between two full directory snapshots with a seam mutation trace, accepted opens continue model conformance."),
     "C17": ("exploration", "4/C17", "Invalid-argument grammar for every parameter of every public method inserted into "
-            "histories; each rejected / read-only call runs between two full directory snapshots."),
+            "histories; each rejected / read-only call runs between two full directory snapshots; SEQ-I: read-only look-ups in "
+            "states left behind by interrupted calls must not write when they succeed."),
     "C18": ("exploration", "4/C18", "Adversarial identifier alphabets inside histories with two seam monitors that only a "
             "simulator-owned file system provides: containment and per-identifier access isolation."),
     "C19": ("exploration", "4/C19", "Two-world rule inside histories: the one-call and the step-wise store procedure run on "
